@@ -200,3 +200,88 @@ Definition build_text (bc : list tok -> list call -> Z) (s : bytes) : Z :=
     | Some (ks, cs) => bc ks cs
     end
   end.
+
+(* ------------------------------------------------------------------ bfe_util.ParseTime / ParseTimeOfDay on plain text *)
+(* plain = printable ASCII without blanks: fmt.Sscanf("%14s%s") / ("%6s%s") then split at a fixed offset, and
+   time.Parse with the layouts 20060102150405 / 15:04:05 accepts exactly two-digit (four-digit year) fields in range. *)
+Definition plain_text (s : bytes) : bool := forallb (fun c => (33 <=? c) && (c <=? 126)) s.
+Definition num_of (ds : bytes) : option Z := if forallb is_dec ds then parse_dec ds else None.
+Definition leap_year (y : Z) : bool := (y mod 4 =? 0) && (negb (y mod 100 =? 0) || (y mod 400 =? 0)).
+Definition days_in (m y : Z) : Z :=
+  if m =? 2 then (if leap_year y then 29 else 28)
+  else if (m =? 4) || (m =? 6) || (m =? 9) || (m =? 11) then 30 else 31.
+(* days since 1970-01-01 of a proleptic Gregorian date *)
+Definition days_from_civil (y m d : Z) : Z :=
+  let y' := if m <=? 2 then y - 1 else y in
+  let era := y' / 400 in
+  let yoe := y' - era * 400 in
+  let doy := (153 * (if 2 <? m then m - 3 else m + 9) + 2) / 5 + d - 1 in
+  let doe := yoe * 365 + yoe / 4 - yoe / 100 + doy in
+  era * 146097 + doe - 719468.
+(* TimeZoneMap[strings.ToUpper(zone)]: military letters, J excluded *)
+Definition zone_offset (z : bytes) : option Z :=
+  match z with
+  | [c] =>
+    let u := upper_byte c in
+    if u =? 90 then Some 0                                               (* Z *)
+    else if (65 <=? u) && (u <=? 73) then Some ((u - 64) * 3600)          (* A..I = +1..+9 *)
+    else if (75 <=? u) && (u <=? 77) then Some ((u - 65) * 3600)          (* K L M = +10..+12 *)
+    else if (78 <=? u) && (u <=? 89) then Some (- (u - 77) * 3600)        (* N..Y = -1..-12 *)
+    else None
+  | _ => None
+  end.
+Definition hms (h mi s : bytes) : option Z :=
+  match num_of h, num_of mi, num_of s with
+  | Some hh, Some mm, Some ss => if (hh <? 24) && (mm <? 60) && (ss <? 60) then Some (hh * 3600 + mm * 60 + ss) else None
+  | _, _, _ => None
+  end.
+(* ParseTime: unix seconds *)
+Definition parse_time_plain (s : bytes) : option Z :=
+  if Nat.ltb (length s) 15 then None else
+  let p := firstn 14 s in
+  let zone := skipn 14 s in
+  match num_of (firstn 4 p), num_of (firstn 2 (skipn 4 p)), num_of (firstn 2 (skipn 6 p)),
+        hms (firstn 2 (skipn 8 p)) (firstn 2 (skipn 10 p)) (firstn 2 (skipn 12 p)), zone_offset zone with
+  | Some y, Some m, Some d, Some sod, Some off =>
+    if (1 <=? m) && (m <=? 12) && (1 <=? d) && (d <=? days_in m y)
+    then Some (days_from_civil y m d * 86400 + sod - off) else None
+  | _, _, _, _, _ => None
+  end.
+(* ParseTimeOfDay: (seconds of the day, zone offset) *)
+Definition parse_tod_plain (s : bytes) : option (Z * Z) :=
+  if Nat.ltb (length s) 7 then None else
+  match hms (firstn 2 s) (firstn 2 (skipn 2 s)) (firstn 2 (skipn 4 s)), zone_offset (skipn 6 s) with
+  | Some sod, Some off => Some (sod, off)
+  | _, _ => None
+  end.
+
+(* the oracle rows produced by the real ParseTime / ParseTimeOfDay must equal the model on plain texts *)
+Definition time_row_ok (row : val) : bool :=
+  match row with
+  | VL [VB t; VZ ok; VZ u] =>
+    if plain_text t then
+      match parse_time_plain t with Some m => negb (ok =? 0) && (u =? m) | None => ok =? 0 end
+    else true
+  | _ => false
+  end.
+Definition tod_row_ok (row : val) : bool :=
+  match row with
+  | VL [VB t; VZ ok; VZ sc; VZ off] =>
+    if plain_text t then
+      match parse_tod_plain t with Some (m, o) => negb (ok =? 0) && (sc =? m) && (off =? o) | None => ok =? 0 end
+    else true
+  | _ => false
+  end.
+Definition time_rows_ok (orc : val) : bool :=
+  match orc with
+  | VL (_ :: _ :: _ :: VL tit :: VL tot :: _) => forallb time_row_ok tit && forallb tod_row_ok tot
+  | _ => true
+  end.
+
+Example parse_time_ex : parse_time_plain (* 20190204203000H *) [50;48;49;57;48;50;48;52;50;48;51;48;48;48;72] = Some 1549283400.
+Proof. reflexivity. Qed.
+Example parse_time_leap : parse_time_plain (* 19000229000000Z *) [49;57;48;48;48;50;50;57;48;48;48;48;48;48;90] = None
+  /\ parse_time_plain (* 20000229000000z *) [50;48;48;48;48;50;50;57;48;48;48;48;48;48;122] = Some 951782400.
+Proof. split; reflexivity. Qed.
+Example parse_tod_ex : parse_tod_plain (* 235959n *) [50;51;53;57;53;57;110] = Some (86399, -3600).
+Proof. reflexivity. Qed.
